@@ -15,7 +15,7 @@ func init() {
 	register(&Property{
 		ID:  "C02",
 		Run: runC02,
-		Explain: "Static lockset analysis (flow-sensitive must-held locks, context-sensitive through static callees) of service.Cache: " +
+		Explain: "Static lockset analysis (flow-sensitive must-held locks, context-sensitive through static callees) of service.Cache:  Added in the build phase: every 'not a replay' return of IsReplay has passed the insert; a client's record is deleted only under the emptiness test of its replay map." +
 			"every access to the replay maps is under Cache.mux in the required mode; in the transitive body of Cache.IsReplay the membership test and every insert happen under ONE acquisition of the write lock (atomic check-then-insert — the necessary condition for rejecting concurrent presentations); " +
 			"entries are evicted only by a comparison of the entry's client time with the skew (so an authenticator that would still pass the skew check is still remembered); " +
 			"the cache is a once-initialised singleton reached only through GetReplayCache; the look-up key is built from client name, ctime and cusec and the verdict compares the stored service name. " +
